@@ -10,8 +10,18 @@ func panicScope(r *core.Run, entries ...rules.Entry) *rules.Scope {
 	sc := rules.NewScope(r, entries)
 	bce := rules.RunBCE(r, sc.Packages())
 	rules.PanicSites(r, sc, bce, "panic_sites")
+	if fl, ok := termProps[r.Prop]; ok {
+		tc := rules.DefaultTermConfig()
+		tc.MinLoops, tc.MinSites = fl[0], fl[1]
+		rules.Termination(r, sc, tc)
+	}
 	return sc
 }
+
+// termProps: properties whose statement includes "never hangs / recurses
+// forever / terminates".
+// The values are the vacuity floors {non-range loops, recursive call sites}.
+var termProps = map[string][2]int{"C06": {6, 40}, "C07": {25, 80}, "C11": {15, 5}, "C16": {8, 25}, "C18": {10, 55}, "C19": {15, 3}, "C09": {15, 3}}
 
 var (
 	entriesC11 = []rules.Entry{
